@@ -218,3 +218,135 @@ theorem reads_spec {ks} (hL : P.sxor.Law ks) {c c' : Conn} {q q' : Net} {outs : 
     simp [xorAt_length, Nat.add_assoc]
 
 end O4.Obfs2
+
+namespace O4.Obfs2
+open O4.SC O4.Consts.Obfs2
+variable (P : Prims)
+
+/-! ## single `ReadFull`s on a stream that has the bytes -/
+
+theorem hsStep_seed {c : Conn} (hc : c.phase = .seed) {x : Bytes} (hx : x.length = seedLen) (r : Bytes) :
+    hsStep P c (x ++ r) = some
+      (match kdfStream P (padString (!c.initiator)) x with
+       | .ok rx => { c with peerSeed := x, rx := rx, phase := .hdr }
+       | .error (.fail e) => { c with peerSeed := x, phase := .failed e }
+       | .error .panic => { c with peerSeed := x, phase := .panicked }, seedLen) := by
+  unfold hsStep
+  have : ¬ (x ++ r).length < seedLen := by simp; omega
+  simp only [hc, this, ↓reduceIte, List.take_left' hx]
+  cases kdfStream P (padString (!c.initiator)) x with
+  | ok rx => rfl
+  | error s => cases s <;> rfl
+
+theorem hsStep_hdr {c : Conn} (hc : c.phase = .hdr) {x : Bytes} (hx : x.length = hsLen) (r : Bytes) :
+    hsStep P c (x ++ r) = some
+      (match checkHeader (c.rx.xor P.sxor x).2 with
+       | .error e => { c with rx := (c.rx.xor P.sxor x).1, phase := .failed e }
+       | .ok padLen => { c with rx := (c.rx.xor P.sxor x).1, phase := .pad padLen, alloc := padLen }, hsLen) := by
+  unfold hsStep
+  have : ¬ (x ++ r).length < hsLen := by simp; omega
+  simp only [hc, this, ↓reduceIte, List.take_left' hx]
+  cases checkHeader (c.rx.xor P.sxor x).2 <;> rfl
+
+theorem hsStep_pad {c : Conn} {n : Nat} (hc : c.phase = .pad n) {x : Bytes} (hx : x.length = n) (r : Bytes) :
+    hsStep P c (x ++ r) = some (kdf P c, n) := by
+  unfold hsStep
+  have : ¬ (x ++ r).length < n := by simp; omega
+  simp only [hc, this, ↓reduceIte]
+
+theorem step_of_hsStep {c c' : Conn} {b : Bytes} {n : Nat} (h : hsStep P c b = some (c', n)) :
+    (hsMachine P).step c b = some (c', [], n) := by simp [hsMachine, h]
+
+/-- a complete, well-formed peer handshake followed by `rest` -/
+theorem runs_good (c : Conn) (hc : c.phase = .seed) (seedP encHdr pad rest : Bytes) (rxs : Stream)
+    (padLen : Nat) (hseed : seedP.length = seedLen)
+    (hk : kdfStream P (padString (!c.initiator)) seedP = .ok rxs)
+    (hhdr : encHdr.length = hsLen) (hchk : checkHeader (rxs.xor P.sxor encHdr).2 = .ok padLen)
+    (hpad : pad.length = padLen) :
+    (hsMachine P).Runs c (seedP ++ encHdr ++ pad ++ rest) []
+      (kdf P { c with peerSeed := seedP, rx := (rxs.xor P.sxor encHdr).1, phase := .pad padLen,
+                      alloc := padLen }) rest := by
+  have s1 := hsStep_seed P hc hseed (encHdr ++ pad ++ rest)
+  rw [hk] at s1
+  have s2 := hsStep_hdr P (c := { c with peerSeed := seedP, rx := rxs, phase := .hdr }) rfl hhdr (pad ++ rest)
+  simp only [hchk] at s2
+  have s3 := hsStep_pad P (c := { c with peerSeed := seedP, rx := (rxs.xor P.sxor encHdr).1, phase := .pad padLen, alloc := padLen }) rfl hpad rest
+  have r3 := Machine.Runs.step (step_of_hsStep P s3) (Machine.Runs.refl _ _)
+  rw [List.drop_left' hpad] at r3
+  have r2 := Machine.Runs.step (step_of_hsStep P s2) (by rw [List.drop_left' hhdr]; exact r3)
+  have r1 := Machine.Runs.step (step_of_hsStep P s1)
+    (by rw [List.drop_left' hseed]; simpa [List.append_assoc] using r2)
+  simpa [List.append_assoc] using r1
+
+/-- a peer handshake whose header is rejected -/
+theorem runs_bad (c : Conn) (hc : c.phase = .seed) (seedP encHdr rest : Bytes) (rxs : Stream)
+    (e : Err) (hseed : seedP.length = seedLen)
+    (hk : kdfStream P (padString (!c.initiator)) seedP = .ok rxs)
+    (hhdr : encHdr.length = hsLen) (hchk : checkHeader (rxs.xor P.sxor encHdr).2 = .error e) :
+    (hsMachine P).Runs c (seedP ++ encHdr ++ rest) []
+      { c with peerSeed := seedP, rx := (rxs.xor P.sxor encHdr).1, phase := .failed e } rest := by
+  have s1 := hsStep_seed P hc hseed (encHdr ++ rest)
+  rw [hk] at s1
+  have s2 := hsStep_hdr P (c := { c with peerSeed := seedP, rx := rxs, phase := .hdr }) rfl hhdr rest
+  simp only [hchk] at s2
+  have r2 := Machine.Runs.step (step_of_hsStep P s2) (Machine.Runs.refl _ _)
+  rw [List.drop_left' hhdr] at r2
+  have r1 := Machine.Runs.step (step_of_hsStep P s1)
+    (by rw [List.drop_left' hseed]; simpa using r2)
+  simpa [List.append_assoc] using r1
+
+/-! ## primitives that never refuse (true of SHA-256 / AES-128: 32-byte digests, 16-byte key and IV) -/
+
+structure PrimsOk (P : Prims) : Prop where
+  hashLen : ∀ x, keyLen ≤ (P.hash x).length
+  keyOk : ∀ x, P.keyOk ((P.hash x).take keyLen) = true
+  ivOk : ∀ x, P.ivOk ((P.hash x).drop keyLen) = true
+
+theorem kdfStream_ok {P : Prims} (h : PrimsOk P) (label seed : Bytes) :
+    kdfStream P label seed =
+      .ok { key := (mac P label seed).take keyLen, iv := (mac P label seed).drop keyLen, off := 0 } := by
+  simp only [kdfStream, hsKdf, newStream, mac, h.hashLen, h.keyOk, h.ivOk, ↓reduceIte, bind, Except.bind]
+  rfl
+
+theorem magic_lt : magicValue < 256 ^ 4 := by decide
+theorem maxPadding_lt : maxPadding < 256 ^ 4 := by decide
+
+theorem checkHeader_encode (n : Nat) (hn : n ≤ maxPadding) :
+    checkHeader (Bytes.ofNatBE 4 magicValue ++ Bytes.ofNatBE 4 n) = .ok n := by
+  have hm : (Bytes.ofNatBE 4 magicValue).length = 4 := Bytes.ofNatBE_length _ _
+  have hl : (Bytes.ofNatBE 4 n).length = 4 := Bytes.ofNatBE_length _ _
+  have h1 : (Bytes.ofNatBE 4 magicValue ++ Bytes.ofNatBE 4 n).take 4 = Bytes.ofNatBE 4 magicValue :=
+    List.take_left' hm
+  have h2 : ((Bytes.ofNatBE 4 magicValue ++ Bytes.ofNatBE 4 n).drop 4).take 4 = Bytes.ofNatBE 4 n := by
+    rw [List.drop_left' hm, List.take_of_length_le (by omega)]
+  have hn' : n < 256 ^ 4 := Nat.lt_of_le_of_lt hn maxPadding_lt
+  unfold checkHeader
+  rw [h1, h2, Bytes.toNatBE_ofNatBE_of_lt _ _ magic_lt, Bytes.toNatBE_ofNatBE_of_lt _ _ hn']
+  simp [Nat.not_lt.mpr hn]
+
+/-- what `startWith` returns when the primitives do not refuse -/
+theorem startWith_facts {P : Prims} (hP : PrimsOk P) {init : Bool} {seed pad : Bytes} {padLen : Nat}
+    {c : Conn} {w : List Bytes} (h : startWith P init seed padLen pad = .ok (c, w)) :
+    c.phase = .seed ∧ c.initiator = init ∧ c.seed = seed ∧ c.alloc = 0 ∧
+    w = [seed, P.sxor ((mac P (padString init) seed).take keyLen) ((mac P (padString init) seed).drop keyLen) 0
+            (Bytes.ofNatBE 4 magicValue ++ Bytes.ofNatBE 4 padLen ++ pad)] := by
+  simp only [startWith, kdfStream_ok hP, Stream.xor, bind, Except.bind, pure, Except.pure,
+    Except.ok.injEq, Prod.mk.injEq] at h
+  obtain ⟨rfl, rfl⟩ := h
+  exact ⟨rfl, rfl, rfl, rfl, rfl⟩
+
+theorem hsLen_eq : hsLen = 4 + 4 := by decide
+
+/-- the peer's view of a handshake message: 8 encrypted header bytes that pass `checkHeader`,
+then as many bytes as announced -/
+theorem blob_view {P : Prims} {ks} (hL : P.sxor.Law ks) (key iv pad : Bytes) (hp : pad.length ≤ maxPadding) :
+    ∃ encHdr encPad, encHdr.length = hsLen ∧ encPad.length = pad.length ∧
+      P.sxor key iv 0 (Bytes.ofNatBE 4 magicValue ++ Bytes.ofNatBE 4 pad.length ++ pad) = encHdr ++ encPad ∧
+      checkHeader (P.sxor key iv 0 encHdr) = .ok pad.length := by
+  rw [hL, xorAt_append]
+  refine ⟨_, _, ?_, ?_, rfl, ?_⟩
+  · rw [xorAt_length, List.length_append, Bytes.ofNatBE_length, Bytes.ofNatBE_length, hsLen_eq]
+  · rw [xorAt_length]
+  · rw [hL, xorAt_xorAt]; exact checkHeader_encode _ hp
+
+end O4.Obfs2
